@@ -42,7 +42,8 @@ def World.obj (w : World) (i : Nat) : Option Nat := (w.objs[i]?).join
 
 def rcOf (h : Heap) (id : Nat) : Nat := match h.objs id with | some o => o.rc | none => 0
 
-def fuel : Nat := 6
+/-- the theorems of `Sqfs.Props.C19` speak about `drop n` / `sqfsCopy n` with `n` above the object id -/
+def fuel : Nat := 64
 def believedSize : Nat := 8
 
 /-- the probe of `h_c19.c`, evaluated on the model heap: facts about copy `c` relative to original `o`;
